@@ -299,6 +299,13 @@ func (w *World) compareSize(k *Kind) *SizeVerdict {
 		v.Diag = "sizeM − sizeL = " + S.Sub(L).String()
 		return v
 	}
+	for _, u := range usedL {
+		if !factAllowed(k.Name, u) {
+			v.Verdict = VViolation
+			v.Diag = "size function and encoder agree only under " + u + ", which only the constructors establish: the field is exported, the API does not enforce its width, and it is not a reviewed fixed-width field (checker/premises.go)"
+			return v
+		}
+	}
 	if es.Origin == "make" || es.Origin == "join" || preSized {
 		switch {
 		case E.Equal(L):
